@@ -197,6 +197,12 @@ func read[EntityT entity.Interface](def Definition, wrapper func(e *Entity) Enti
 		opsCount += len(opp.Operations)
 	}
 
+	// An entity is identified by its first operation: a history without any operation is not an
+	// entity (its Id can't even be computed).
+	if opsCount == 0 {
+		return *new(EntityT), fmt.Errorf("entity has no operations")
+	}
+
 	// The clocks are fine, we witness them
 	for _, opp := range oppMap {
 		err = repo.Witness(fmt.Sprintf(creationClockPattern, def.Namespace), opp.CreateTime)
